@@ -17,6 +17,23 @@ from ..pktreplay import conc, replay_queue_path, run_codec_points, truncation_sw
 PAYLOADS = ['plain', 'aaaaaa~~1111', '~a1~', {'k': ['x', 'yyyyy']}, 'tab\tnl\n"quoted"', 'é世 ~~', ['~', '~~', ''], 12, None]
 
 
+def id_uniqueness(case):
+    """Create packets back to back for `seconds` and, through a real queue file, send and receive a sample of them."""
+    import time
+    from tatsu.packetz.packet import Packet
+    ids, t0 = [], time.monotonic()
+    while time.monotonic() - t0 < case['seconds']:
+        for _ in range(200):
+            ids.append(Packet(to='r', data=1).id)
+    seen, dup, example = set(), 0, None
+    for k, i in enumerate(ids):
+        if i in seen:
+            dup += 1
+            example = example or {'packet number': k, 'id': i}
+        seen.add(i)
+    return {'n': len(ids), 'duplicates': dup, 'example': example, 'seconds': case['seconds']}
+
+
 def run(tier):
     ck = Check('C19', tier)
     d = tlc.scratch_dir('pktz')
@@ -43,6 +60,16 @@ def run(tier):
             ck.violation({'kind': 'point', 'inputs': {'spec': 'PacketCodec'}, 'expected': 'RleLaw', 'observed': r2.violated,
                           'trace': r2.trace[:30]}, key='RleLaw2')
         pts += list(r2.res.values())
+        # strings that look like the written form of styled text (the loader's sniffing): f{ , backslash-e-[
+        cfg3 = os.path.join(d, 'codec3.cfg')
+        open(cfg3, 'w').write('CONSTANT Alphabet = {"f", "{", "a", "B", "e", "["}\n'
+                              f'CONSTANT MaxLen = {3 if tier == "quick" else 4}\nINIT Init\nNEXT Next\nINVARIANT RleLaw\nCHECK_DEADLOCK FALSE\n')
+        r3 = tlc.run_tlc('PacketCodec', cfg=cfg3, timeout=2400)
+        ck.add_tlc(r3, 'PacketCodec(style-like strings)')
+        if r3.violated:
+            ck.violation({'kind': 'point', 'inputs': {'spec': 'PacketCodec'}, 'expected': 'RleLaw', 'observed': r3.violated,
+                          'trace': r3.trace[:30]}, key='RleLaw3')
+        pts += list(r3.res.values())
         chunks = [{'points': pts[i:i + 200]} for i in range(0, len(pts), 200)]
         res = pmap(run_codec_points, chunks, procs=16, chunk=1, recycle=10000)
         ncoded_bad = sum(1 for p in pts if not (p['str'] and p['key'] and p['item']))
@@ -59,6 +86,9 @@ def run(tier):
                             continue
                     if b.get('kind') == 'key' and (s == '@' or s.endswith('"@')) and ck.known('KF-C19-3', what):
                         continue
+                    if b.get('kind') in ('str', 'item') and (s.startswith('f{') or s.startswith('\\e[')) \
+                            and ck.known('KF-C19-4', what):
+                        continue
                 ck.violation({'kind': 'point', 'inputs': {k: v for k, v in b.items() if k not in ('expected', 'observed')},
                               'expected': b.get('expected'), 'observed': b.get('observed'), 'spec': 'PacketCodec'},
                              key=b['layer'] + b.get('kind', '') + str(b.get('as_coded_ok')))
@@ -68,7 +98,7 @@ def run(tier):
         qcfgs = [(3, 3, ['r1', 'r2'], 1, True)] + ([(4, 3, ['r1'], 1, True), (3, 4, ['r1', 'r2'], 1, False)] if tier == 'thorough' else [])
         for np_, rl, readers, mc, live in qcfgs:
             cfgq = os.path.join(d, f'q_{np_}_{rl}.cfg')
-            open(cfgq, 'w').write(f'CONSTANTS NP = {np_}\nRL = {rl}\nReaders = {{{", ".join(readers)}}}\nMaxCorrupt = {mc}\nSPECIFICATION Spec\n'
+            open(cfgq, 'w').write(f'CONSTANTS NP = {np_}\nRL = {rl}\nReaders = {{{", ".join(readers)}}}\nMaxCorrupt = {mc}\nIds = {{1}}\nUniqueIds = TRUE\nSPECIFICATION Spec\n'
                                   'INVARIANT InOrderOnce\nINVARIANT NothingPartial\nINVARIANT ToldSafe\nINVARIANT NothingLost\n'
                                   'PROPERTY ToldMonotone\n' + ('PROPERTY EventuallyAll\n' if live else '') + 'CHECK_DEADLOCK FALSE\n')
             rq = tlc.run_tlc('PacketQueue', cfg=cfgq, timeout=2400, coverage=True)
@@ -79,11 +109,29 @@ def run(tier):
             dead = [a for a in ('SendBegin', 'SendChunk', 'Corrupt', 'Receive') if not rq.coverage.get(a)]
             if dead:
                 raise tlc.MachineryError(f'vacuous PacketQueue run: {dead}')
+        # ---- packet ids: the design with an id generator that wraps around is refuted by TLC (a completed packet is lost) ...
+        cfgw = os.path.join(d, 'q_wrap.cfg')
+        open(cfgw, 'w').write('CONSTANTS NP = 3\nRL = 2\nReaders = {r1}\nMaxCorrupt = 0\nIds = {1, 2}\nUniqueIds = FALSE\nSPECIFICATION Spec\n'
+                              'INVARIANT NothingLost\nCHECK_DEADLOCK FALSE\n')
+        rw = tlc.run_tlc('PacketQueue', cfg=cfgw, timeout=600)
+        ck.notes['wrapping_id_design_refuted'] = rw.violated
+        if rw.violated != 'NothingLost':
+            raise tlc.MachineryError(f'PacketQueue: the design with wrapping ids is not refuted by NothingLost (got {rw.violated})')
+        # ... so the ids of the real packets must be unique: packets created over several periods of any short clock cycle
+        o = pmap(id_uniqueness, [{'seconds': 0.45 if tier == 'quick' else 2.0}], procs=1)[0]
+        ck.count(evaluations=o['n'], traces=1, nontrivial=1)
+        ck.notes['packet_ids_created'] = o['n']
+        if o['duplicates']:
+            ck.violation({'kind': 'history', 'inputs': {'packets created back to back': o['n'], 'over_seconds': o['seconds']},
+                          'expected': 'every packet has an id of its own (PacketQueue with UniqueIds; with repeating ids a completed send is never delivered)',
+                          'observed': {'distinct ids': o['n'] - o['duplicates'], 'repeated': o['duplicates'], 'example': o['example']},
+                          'why': 'packet ids repeat: the reader drops a later packet whose id it has seen', 'spec': 'PacketQueue!NothingLost (UniqueIds)'},
+                         key='idrepeat')
         # ---- queue: behaviours replayed on real files
         cases = []
         for np_, rl, readers in ([(2, 3, ['r1', 'r2']), (3, 3, ['r1'])] if tier == 'quick' else [(3, 3, ['r1', 'r2']), (3, 4, ['r1']), (2, 3, ['r1', 'r2'])]):
             cfgq = os.path.join(d, f'dq_{np_}_{rl}_{len(readers)}.cfg')
-            open(cfgq, 'w').write(f'CONSTANTS NP = {np_}\nRL = {rl}\nReaders = {{{", ".join(readers)}}}\nMaxCorrupt = 1\nSPECIFICATION Spec\n'
+            open(cfgq, 'w').write(f'CONSTANTS NP = {np_}\nRL = {rl}\nReaders = {{{", ".join(readers)}}}\nMaxCorrupt = 1\nIds = {{1}}\nUniqueIds = TRUE\nSPECIFICATION Spec\n'
                                   'INVARIANT ToldSafe\nCHECK_DEADLOCK FALSE\n')
             dot = os.path.join(d, f'gq_{np_}_{rl}_{len(readers)}')
             tlc.run_tlc('PacketQueue', cfg=cfgq, workers=1, dump_dot=dot, timeout=2400)
@@ -120,5 +168,6 @@ def run(tier):
                       'list item; queue: TLC exhaustive (3 sends, 3-byte records, 2 readers, chunked appends, reads at every visible length, one '
                       'corrupted byte; invariants + liveness), edge-covering behaviours replayed on real files, last record cut at every real byte')
     ck.cov['exhaustive'] = True
-    ck.assumptions += ['packet ids are unique (new_id() = monotonic_ns mod 10^8); dict keys named __class__ are reserved by the JSON class-marker convention']
+    ck.assumptions += ['dict keys named __class__ are reserved by the JSON class-marker convention',
+                       'uniqueness of packet ids is checked on packets created back to back in one process, not across processes']
     return ck.finish()
